@@ -237,13 +237,20 @@ impl FixtureDatabase {
                     "Fixture {} is imported in conftest.py: {:?}",
                     fixture_name, conftest_path
                 );
-                // Get any matching definition that passes the filter
-                if let Some(def) = definitions.iter().find(|def| filter(def)) {
+                // Return the definition from the module the import chain leads to
+                let mut visited = HashSet::new();
+                if let Some(def) = self.find_imported_fixture_definition(
+                    fixture_name,
+                    &conftest_path,
+                    &definitions,
+                    &filter,
+                    &mut visited,
+                ) {
                     info!(
                         "Found imported fixture {} via conftest.py: {:?} (original: {:?})",
                         fixture_name, conftest_path, def.file_path
                     );
-                    return Some(def.clone());
+                    return Some(def);
                 }
             }
 
@@ -534,8 +541,15 @@ impl FixtureDatabase {
                         if !seen_names.contains(&fixture_name) {
                             // Get the original definition for this imported fixture
                             if let Some(definitions) = self.definitions.get(&fixture_name) {
-                                if let Some(def) = definitions.first() {
-                                    available_fixtures.push(def.clone());
+                                let mut visited = HashSet::new();
+                                if let Some(def) = self.find_imported_fixture_definition(
+                                    &fixture_name,
+                                    &conftest_path,
+                                    &definitions,
+                                    &|_| true,
+                                    &mut visited,
+                                ) {
+                                    available_fixtures.push(def);
                                     seen_names.insert(fixture_name);
                                 }
                             }
